@@ -2,7 +2,7 @@
 
 # property -> contract modules that carry obligations for it
 PROPERTY_MODULES = {
-    "C16": ["selection"],
+    "C16": ["selection", "choicemap"],
 }
 
 A_REAL = "A-REAL: machine floats are treated as mathematical reals and ints as mathematical ints (no rounding, overflow, nan/inf)"
